@@ -11,7 +11,9 @@ EXPLANATION = (
     "SCALE (positive factor 2^n_frac) -> RND(self.config.rounding) -> OVF with no other operation in between, so the chain is a "
     "composition of monotone, integer-preserving stages (lemma table); the object carrier (which bypasses rounding) is selected only "
     "at n_word >= 64 or by input magnitude. Residual: half-LSB bound and tie behaviour are the primitives' semantics; exactness of "
-    "v*2^n_frac in binary64.")
+    "v*2^n_frac in binary64."
+    ' Added after the third round of seeded changes: read-back is code*2^-n_frac for every n_frac (C16.R2) and the inaccuracy comparison is made on the value just stored (C04.R2).'
+)
 ASSUMPTIONS = ["np.floor/ceil/trunc/fix/around are monotone, identity on integers, |r-v|<1 (around: <=1/2, ties to even)"]
 TRUSTED = ["CPython ast", "lemma table of rounding primitives"]
 
